@@ -43,19 +43,21 @@ Qed.
 Lemma sstep_classes (s : sstate) (o : sop) (c : nat) (x : list K * bool) :
   nth_error (s_classes s) c = Some x -> nth_error (s_classes (fst (sstep s o))) c = Some x.
 Proof.
-  intros H. destruct o as [fs t|cols rows|ds|cols|c' d|c' cells|f d|f|r]; cbn [C02.sstep fst s_classes]; try exact H.
+  intros H. destruct o as [fs t|cols rows|ds|cols|c' d|c' cells|f d|f|r|f0 cols0|f0 n0]; cbn [C02.sstep fst s_classes]; try exact H.
   - now apply nth_error_app_keep.
   - destruct (nth_error (s_classes s) c') as [[fs [|]]|]; exact H.
   - destruct (nth_error (s_classes s) c') as [[fs t]|]; exact H.
   - destruct (nth_error (s_frames s) f) as [[[|] fr]|]; exact H.
   - destruct (nth_error (s_frames s) f) as [[b fr]|]; exact H.
   - destruct (nth_error (s_rows s) r); exact H.
+  - destruct (nth_error (s_frames s) f0) as [[b fr]|]; exact H.
+  - destruct (nth_error (s_frames s) f0) as [[b fr]|]; exact H.
 Qed.
 
 Lemma sstep_rows (s : sstate) (o : sop) (r : nat) (x : list K * list V) :
   nth_error (s_rows s) r = Some x -> nth_error (s_rows (fst (sstep s o))) r = Some x.
 Proof.
-  intros H. destruct o as [fs t|cols rows|ds|cols|c' d|c' cells|f d|f|r']; cbn [C02.sstep fst s_rows]; try exact H.
+  intros H. destruct o as [fs t|cols rows|ds|cols|c' d|c' cells|f d|f|r'|f0 cols0|f0 n0]; cbn [C02.sstep fst s_rows]; try exact H.
   - destruct (nth_error (s_classes s) c') as [[fs [|]]|]; cbn [fst s_rows]; [exact H| |exact H].
     now apply nth_error_app_keep.
   - destruct (nth_error (s_classes s) c') as [[fs t]|]; cbn [fst s_rows]; [|exact H].
@@ -63,13 +65,15 @@ Proof.
   - destruct (nth_error (s_frames s) f) as [[[|] fr]|]; exact H.
   - destruct (nth_error (s_frames s) f) as [[b fr]|]; exact H.
   - destruct (nth_error (s_rows s) r'); exact H.
+  - destruct (nth_error (s_frames s) f0) as [[b fr]|]; exact H.
+  - destruct (nth_error (s_frames s) f0) as [[b fr]|]; exact H.
 Qed.
 
 (* a frame that does not take dictionaries (built from Arrow) never changes *)
 Lemma sstep_frames_fixed (s : sstate) (o : sop) (f : nat) (fr : list K * list (list V)) :
   nth_error (s_frames s) f = Some (false, fr) -> nth_error (s_frames (fst (sstep s o))) f = Some (false, fr).
 Proof.
-  intros H. destruct o as [fs t|cols rows|ds|cols|c' d|c' cells|f' d|f'|r']; cbn [C02.sstep fst s_frames]; try exact H;
+  intros H. destruct o as [fs t|cols rows|ds|cols|c' d|c' cells|f' d|f'|r'|f0 cols0|f0 n0]; cbn [C02.sstep fst s_frames]; try exact H;
     try (now apply nth_error_app_keep).
   - destruct (nth_error (s_classes s) c') as [[fs [|]]|]; exact H.
   - destruct (nth_error (s_classes s) c') as [[fs t]|]; exact H.
@@ -77,6 +81,8 @@ Proof.
     destruct (Nat.eq_dec f' f) as [->|N]; [congruence|]. now rewrite set_nth_other.
   - destruct (nth_error (s_frames s) f') as [[b fr']|]; exact H.
   - destruct (nth_error (s_rows s) r'); exact H.
+  - destruct (nth_error (s_frames s) f0) as [[b fr']|]; cbn [fst s_frames]; [now apply nth_error_app_keep|exact H].
+  - destruct (nth_error (s_frames s) f0) as [[b fr']|]; cbn [fst s_frames]; [now apply nth_error_app_keep|exact H].
 Qed.
 
 (* a frame that takes dictionaries keeps its columns and only grows, by rows as wide as the columns *)
@@ -88,7 +94,7 @@ Lemma sstep_frames_grow (s : sstate) (o : sop) (f : nat) (cols : list K) (rows :
   grown cols rows s f -> grown cols rows (fst (sstep s o)) f.
 Proof.
   intros [extra [H W]].
-  destruct o as [fs t|cols' rows'|ds|cols'|c' d|c' cells|f' d|f'|r']; cbn [C02.sstep fst s_frames];
+  destruct o as [fs t|cols' rows'|ds|cols'|c' d|c' cells|f' d|f'|r'|f0 cols0|f0 n0]; cbn [C02.sstep fst s_frames];
     try (exists extra; split; [exact H|exact W]);
     try (exists extra; split; [now apply nth_error_app_keep|exact W]).
   - destruct (nth_error (s_classes s) c') as [[fs [|]]|]; exists extra; split; assumption.
@@ -102,6 +108,10 @@ Proof.
     + exists extra. cbn [fst s_frames]. split; [now rewrite set_nth_other|exact W].
   - destruct (nth_error (s_frames s) f') as [[b fr']|]; exists extra; split; assumption.
   - destruct (nth_error (s_rows s) r'); exists extra; split; assumption.
+  - destruct (nth_error (s_frames s) f0) as [[b fr']|]; exists extra; cbn [fst s_frames];
+      (split; [try (now apply nth_error_app_keep); exact H|exact W]).
+  - destruct (nth_error (s_frames s) f0) as [[b fr']|]; exists extra; cbn [fst s_frames];
+      (split; [try (now apply nth_error_app_keep); exact H|exact W]).
 Qed.
 
 (* ---------- whole histories ---------- *)
@@ -201,6 +211,40 @@ Proof.
   destruct (session_frame_grown (fst (sstep s (SNamed cols))) (length (s_frames s)) cols [] ops d)
     as [extra [W [_ A]]].
   - cbn [C02.sstep fst s_frames]. apply nth_error_app_new.
+  - exists extra. split; [exact W|exact A].
+Qed.
+
+(* frames made from the Row objects of another frame (under a column list of their own, or cut down by
+   head / slice / query) map appended dictionaries onto their OWN columns, after any history *)
+Lemma session_reframe (s : sstate) (f : nat) (b : bool) (fr : list K * list (list V)) (cols : list K)
+      (ops : list sop) (d : list (K * V)) :
+  nth_error (s_frames s) f = Some (b, fr) ->
+  snd (sstep s (SReframe f cols)) = SOFrame cols (snd fr) /\
+  exists extra,
+    Forall (fun r => length r = length cols) extra /\
+    snd (sstep (fst (srun (fst (sstep s (SReframe f cols))) ops)) (SAppend (length (s_frames s)) d)) =
+    SOFrame cols (snd fr ++ extra ++ [extract cols d]).
+Proof.
+  intros H. split; [cbn [C02.sstep]; now rewrite H|].
+  destruct (session_frame_grown (fst (sstep s (SReframe f cols))) (length (s_frames s)) cols (snd fr) ops d)
+    as [extra [W [_ A]]].
+  - cbn [C02.sstep]. rewrite H. cbn [fst s_frames]. apply nth_error_app_new.
+  - exists extra. split; [exact W|exact A].
+Qed.
+
+Lemma session_derive (s : sstate) (f : nat) (b : bool) (fr : list K * list (list V)) (n : nat)
+      (ops : list sop) (d : list (K * V)) :
+  nth_error (s_frames s) f = Some (b, fr) ->
+  snd (sstep s (SDerive f n)) = SOFrame (fst fr) (firstn n (snd fr)) /\
+  exists extra,
+    Forall (fun r => length r = length (fst fr)) extra /\
+    snd (sstep (fst (srun (fst (sstep s (SDerive f n))) ops)) (SAppend (length (s_frames s)) d)) =
+    SOFrame (fst fr) (firstn n (snd fr) ++ extra ++ [extract (fst fr) d]).
+Proof.
+  intros H. split; [cbn [C02.sstep]; now rewrite H|].
+  destruct (session_frame_grown (fst (sstep s (SDerive f n))) (length (s_frames s)) (fst fr) (firstn n (snd fr)) ops d)
+    as [extra [W [_ A]]].
+  - cbn [C02.sstep]. rewrite H. cbn [fst s_frames]. apply nth_error_app_new.
   - exists extra. split; [exact W|exact A].
 Qed.
 
